@@ -215,12 +215,36 @@ func c12Keyset(c *Ctx) {
 				return cc != nil && isEntryMethod(&cc.Call, "KeyID") && cc.Call.Args[0] == ssa.Value(e)
 			},
 			"Status": func(v ssa.Value) bool {
-				cc, _ := guard.CallOf(v)
-				if cc == nil || !strings.HasSuffix(guard.CalleeName(&cc.Call), "keyset.keyStatusToProto") {
+				var statusOf func(v ssa.Value, ent ssa.Value, depth int) bool
+				statusOf = func(v ssa.Value, ent ssa.Value, depth int) bool {
+					cc, ci := guard.CallOf(v)
+					if cc == nil || depth > 2 {
+						return false
+					}
+					if strings.HasSuffix(guard.CalleeName(&cc.Call), "keyset.keyStatusToProto") {
+						sc, _ := guard.CallOf(cc.Call.Args[0])
+						return sc != nil && isEntryMethod(&sc.Call, "KeyStatus") && guard.Strip(sc.Call.Args[0]) == guard.Strip(ent)
+					}
+					// a helper of the package applied to the same entry: decided on its success returns
+					h := cc.Call.StaticCallee()
+					if h == nil || h.Blocks == nil || core.Rel(core.PkgOf(h)) != "keyset" {
+						return false
+					}
+					for j, a := range cc.Call.Args {
+						if guard.Strip(a) != guard.Strip(ent) || j >= len(h.Params) {
+							continue
+						}
+						rets := guard.SuccessReturns(h)
+						for _, ret := range rets {
+							if ci >= len(ret.Results) || !statusOf(ret.Results[ci], h.Params[j], depth+1) {
+								return false
+							}
+						}
+						return len(rets) > 0
+					}
 					return false
 				}
-				sc, _ := guard.CallOf(cc.Call.Args[0])
-				return sc != nil && isEntryMethod(&sc.Call, "KeyStatus") && sc.Call.Args[0] == ssa.Value(e)
+				return statusOf(v, e, 0)
 			},
 			"OutputPrefixType": func(v ssa.Value) bool {
 				cc, _ := guard.CallOf(v)
@@ -440,7 +464,7 @@ func c12Keyset(c *Ctx) {
 			idc, _ := guard.CallOf(args[2])
 			okID := idc != nil && strings.HasSuffix(guard.CalleeName(&idc.Call), "Keyset_Key).GetKeyId")
 			okPrim := false
-			if cmp, isCmp := guard.Strip(args[1]).(*ssa.BinOp); isCmp && cmp.Op == token.EQL {
+			if cmp, isCmp := guard.Strip(resolveParam(p, args[1])).(*ssa.BinOp); isCmp && cmp.Op == token.EQL {
 				// either operand may be a getter call or a direct field load, possibly handed
 				// into an extracted helper as a parameter
 				kind := func(v ssa.Value) string {
